@@ -824,7 +824,9 @@ impl<'a, 'tcx> Own<'a, 'tcx> {
                 }
             }
             ty::Closure(d, args) => {
-                if !self.seen.insert(key.clone()) {
+                // the printed closure type carries no generic arguments: key the visit by its captures too
+                let ck = format!("{}|{}", key, args.as_closure().upvar_tys().iter().map(|u| self.cx.tys(u)).collect::<Vec<_>>().join(","));
+                if !self.seen.insert(ck) {
                     return;
                 }
                 let name = self.cx.path(*d);
@@ -833,7 +835,8 @@ impl<'a, 'tcx> Own<'a, 'tcx> {
                 }
             }
             ty::Coroutine(d, args) => {
-                if !self.seen.insert(key.clone()) {
+                let ck = format!("{}|{}", key, args.as_coroutine().upvar_tys().iter().map(|u| self.cx.tys(u)).collect::<Vec<_>>().join(","));
+                if !self.seen.insert(ck) {
                     return;
                 }
                 let name = self.cx.path(*d);
